@@ -100,6 +100,12 @@ Shapes(i) == {
                                  per |-> <<[codes |-> {1}, ps |-> <<Value("x", -1, -1, SimpleA(U8, {IntV(4), IntV(5)}))>>],
                                            [codes |-> {2}, ps |-> <<Value("y", -1, -1, SimpleA(Std("uint", "NONE", 16, TRUE), {IntV(258)})),
                                                                     Value("z", -1, -1, SimpleA(U8, {IntV(7)}))>>]>>])>>,
+    \* records of (trouble code, environment data) up to the end of the PDU: each record's data follows ITS code
+    <<Value(Nm("f", i), -1, -1, [k |-> "eopfield", st |-> Struct(<<
+        Value("d", -1, -1, [k |-> "dtc", dct |-> U8, codes |-> <<1, 2>>]),
+        Value("e", -1, -1, [k |-> "envdesc", ref |-> "d", hasall |-> FALSE, all |-> <<>>,
+                            per |-> <<[codes |-> {1}, ps |-> <<Value("x", -1, -1, SimpleA(U8, {IntV(4)}))>>],
+                                      [codes |-> {2}, ps |-> <<Value("y", -1, -1, SimpleA(Std("uint", "NONE", 16, TRUE), {IntV(258)}))>>]>>])>>, -1)])>>,
     \* ... the same without common parameters, selected by a plain unsigned value instead of a DTC object
     <<Value(Nm("d", i), -1, -1, SimpleA(U8, {IntV(1), IntV(6)})),
       Value(Nm("e", i), -1, -1, [k |-> "envdesc", ref |-> Nm("d", i), hasall |-> FALSE, all |-> <<>>,
